@@ -51,7 +51,7 @@ def case_strategy():
                 ops.append(["add_mixins", a, b])
             elif k == "register":
                 ops.append(["register", a, draw(st.integers(0, len(ANNS) - 1)), draw(st.sampled_from([0, 0, 1])),
-                            draw(st.sampled_from(["leaf", "leaf", "leaf", "walk_list"]))])
+                            draw(st.sampled_from(["leaf", "leaf", "leaf", "walk_list", "next"]))])
             elif k == "unregister":
                 ops.append(["unregister", a, b])
             else:
@@ -202,7 +202,7 @@ def run_case(spec):
             expect = model.lock_expectation(node)
             if kind == "register":
                 m = {"id": mid[0], "kind": op[4], "prio": op[3], "owner": node, "rec": "recurse"}
-                if op[4] == "leaf":
+                if op[4] in ("leaf", "next"):
                     m["ann"] = ANNS[op[2]]
                 key = M.sig_key(GR.as_model_method(m))
                 if any(M.sig_key(GR.as_model_method(o)) == key for o in model.own[node]):
